@@ -109,6 +109,12 @@ impl PatchIndexHeader {
             key_size = data[pos];
             pos += 1;
 
+            // The key is kept in a 16-byte array, and `build` writes
+            // `key_size` bytes of it
+            if key_size > 16 {
+                return Err(PatchIndexError::InvalidHeaderKeySize(key_size));
+            }
+
             let key_bytes = key_size.min(16) as usize;
             if pos + key_bytes > data.len() {
                 return Err(PatchIndexError::TruncatedHeader {
@@ -276,6 +282,41 @@ mod tests {
         assert_eq!(reparsed.blocks.len(), 2);
         assert_eq!(reparsed.blocks[0].block_type, 1);
         assert_eq!(reparsed.blocks[1].block_type, 2);
+    }
+
+    #[test]
+    fn test_extra_header_key_size_above_16_is_an_error() {
+        // header_size, version, data_size, extra_header_len, key_size = 17,
+        // 17 key bytes, block_count = 0: used to be accepted, and `build` of the
+        // accepted header sliced 17 bytes out of the 16-byte key array
+        let key_size = 17u8;
+        let header_size = 14 + 1 + u32::from(key_size) + 4;
+        let mut data = Vec::new();
+        data.extend_from_slice(&header_size.to_le_bytes());
+        data.extend_from_slice(&1u32.to_le_bytes());
+        data.extend_from_slice(&header_size.to_le_bytes());
+        data.extend_from_slice(&(1 + u16::from(key_size)).to_le_bytes());
+        data.push(key_size);
+        data.extend(std::iter::repeat_n(0x42u8, key_size as usize));
+        data.extend_from_slice(&0u32.to_le_bytes());
+        assert!(matches!(
+            PatchIndexHeader::parse(&data),
+            Err(PatchIndexError::InvalidHeaderKeySize(17))
+        ));
+
+        // 16 bytes are the most the header can hold and come back as written
+        let key_size = 16u8;
+        let header_size = 14 + 1 + u32::from(key_size) + 4;
+        let mut data = Vec::new();
+        data.extend_from_slice(&header_size.to_le_bytes());
+        data.extend_from_slice(&1u32.to_le_bytes());
+        data.extend_from_slice(&header_size.to_le_bytes());
+        data.extend_from_slice(&(1 + u16::from(key_size)).to_le_bytes());
+        data.push(key_size);
+        data.extend(std::iter::repeat_n(0x42u8, key_size as usize));
+        data.extend_from_slice(&0u32.to_le_bytes());
+        let header = PatchIndexHeader::parse(&data).unwrap();
+        assert_eq!(header.build(), data);
     }
 
     #[test]
